@@ -61,7 +61,7 @@ class IterInit(Task):
         a = inp["self_"].attrs
         it, data = a.get("iterator"), a.get("_data")
         ok = isinstance(it, SeqIter) and isinstance(data, SeqIter)
-        ctx.oblige("post.state-structure", ok, "P")
+        ctx.structure("post.state-structure", ok)
         if not ok:
             return
         m, FID, NBF, ELEM = inp["m"], inp["FID"], inp["NBF"], inp["ELEM"]
@@ -70,7 +70,7 @@ class IterInit(Task):
         ctx.oblige("post.first-file-taken", veq(ctx, it.pos, 1), "P")
         ctx.oblige("post.consuming-the-first-file-from-its-start",
                    zand(veq(ctx, data.seq, SymSeq(NBF(FID(0)), lambda q: ELEM(FID(0), to_z3(q)))), veq(ctx, data.pos, 0)), "P")
-        ctx.oblige("frame.one-pool", len([e for e in ctx.events if e[0] == "pool-created"]) == 1, "P")
+        ctx.structure("frame.one-pool", len([e for e in ctx.events if e[0] == "pool-created"]) == 1)
         # (pool contract, see LevelDataStream.iter: a pool only its imap iterator references can block the iteration for ever -
         # seen for this iterator under GIL contention in the consuming process)
         pool = getattr(it, "pool", None)
@@ -117,7 +117,7 @@ class IterNext(Task):
         a = inp["self_"].attrs
         it, data = a.get("iterator"), a.get("_data")
         ok = isinstance(it, SeqIter) and isinstance(data, SeqIter)
-        ctx.oblige("post.state-structure", ok, "P")
+        ctx.structure("post.state-structure", ok)
         if not ok:
             return
         inside = p < n_f
@@ -171,7 +171,7 @@ class StreamIter(Task):
             return
         c = inp["calls"]
         ok = len(c) == 1 and len(c[0][0]) == 3 and isinstance(out.value, Record)
-        ctx.oblige("post.one-iterator-built-and-returned", ok, "P")
+        ctx.structure("post.one-iterator-built-and-returned", ok)
         if not ok:
             return
         fun, files, farg = c[0][0]
